@@ -355,7 +355,8 @@ def execute(case):
     tag = 'tls' if case['tls'] else 'plain'
     res.stats['probe:' + tag] += 1
     for k, v in enc.probes.items():
-        if k == 'ctl_inside_unfinished_message':
+        if k in ('ctl_inside_unfinished_message',
+                 'burst_exact_multiple_of_buffer'):
             res.stats['probe:' + k] += v
     for k, m in oracle.trace_sanity(tr):
         if k in ('hang', 'escaped'):
